@@ -428,6 +428,16 @@ def run(chk):
         chk.finding('hist:' + hashlib.sha1(line.encode()).hexdigest()[:12],
                     dict(kind='hist', n=n, callees=cs, ops=small, original_ops=ops, what=why2),
                     'redirection history disagrees with the verified state machine: %s  [%s]' % (why2, line))
+    if not quick and not found:
+        # the same tie against an assert-enabled build: a history the model accepts must not trip a C assertion
+        impl_dbg = vlib.build_harness('c03_thunk', ['c03_thunk.c'], variant='dbg')
+        rng = chk.rng('hist-dbg')
+        for n, cs, ops, callees, why in check_histories(chk, impl_dbg, model, rng, 600)[:1]:
+            found = True
+            line = 'H %d | %s | %s' % (n, cs, ' ; '.join(ops))
+            chk.finding('hist-dbg:' + hashlib.sha1(line.encode()).hexdigest()[:12],
+                        dict(kind='hist', variant='dbg', n=n, callees=cs, ops=ops, what=why),
+                        'assert-enabled build: history accepted by the model fails: %s  [%s]' % (why, line))
     # differential run over the five interfaces
     try:
         from checks import c03_ifaces
@@ -452,6 +462,8 @@ def replay(chk, path):
         print('disagreement:' if bad else 'agree', bad)
         return 1 if bad else 0
     if rp.get('kind') == 'hist':
+        if rp.get('variant') == 'dbg':
+            impl = vlib.build_harness('c03_thunk', ['c03_thunk.c'], variant='dbg')
         callees = {}
         for tok in rp['callees'].split():
             f, cs = tok.split(':')
